@@ -119,7 +119,7 @@ def gen_env(rng, p, c, o):
                 elif p["att_timeout"] < 10**6 and r < 0.35 + (0.25 if o.get("_is_async") else 0.03):
                     op[1] = p["att_timeout"]
                     op.append("hang")
-    svals = [0, 0, 1, 1, 2, 3, 5, 8, dl, dl + 3, 2**20, -1, -5, "nan", "inf", "-inf", "huge", "-huge"]
+    svals = [0, 0, 1, 1, 2, 3, 5, 8, dl, dl + 3, 2**20, -1, -5, "nan", "inf", "-inf", "huge", "-huge", "hugeint", "-hugeint"]
     env = {
         "ops": ops,
         "abort": [], "strat": [rng.choice(svals) for _ in range(n_ops)],
@@ -334,8 +334,10 @@ def g_op(op):
 
 
 def g_sval(v):
-    if v in ("huge", "-huge"):        # 1e300 s: any finite value beyond every deadline (the model only takes min / max with it)
-        return G.con("SFin", "(2 ^ 1000)" if v == "huge" else "(- 2 ^ 1000)")
+    if v in ("huge", "-huge", "hugeint", "-hugeint"):
+        # 1e300 s, or the int 10**400 (an integer backoff like 2 ** attempt grown beyond the float range): any finite value beyond every
+        # deadline (the model only takes min / max with it)
+        return G.con("SFin", "(2 ^ 1000)" if not v.startswith("-") else "(- 2 ^ 1000)")
     return {"nan": "SNaN", "inf": "SPInf", "-inf": "SNInf"}.get(v) or G.con("SFin", G.z(v))
 
 
